@@ -94,13 +94,19 @@ def main():
         else:
             sh(f"git -C /repo worktree remove --force {wt}")
             shutil.rmtree(wt, ignore_errors=True)
-        # the checks regenerate parts of the Lean model from the tree under test: put back /repo's own versions
+        # the checks regenerate parts of the Lean model from the tree under test: put back /repo's own versions (under
+        # the same lock the checks hold from regeneration until their proofs are built and audited: a restore in the
+        # middle of another run's build would make that run judge the wrong text)
+        import fcntl
+        _lock = open(os.path.join(VERIF, "lean", ".gen.lock"), "w")
+        fcntl.flock(_lock, fcntl.LOCK_EX)
         sh(f"/venv/bin/python {VERIF}/harness/translate/formulas.py /repo {VERIF}/lean/PyribsGen/Formulas.lean")
         sh(f"/venv/bin/python {VERIF}/harness/translate/control.py /repo {VERIF}/lean/PyribsGen/Control.lean")
         if "C09" in checks:
             # C09 regenerates lean/PyribsGen/RngSites.lean from the tree under test: put back /repo's own table
             sh(f"/venv/bin/python -c \"import sys; sys.path.insert(0, '{VERIF}/harness'); "
                f"from translate import rng_sites; rng_sites.translate('/repo', '{VERIF}/lean/PyribsGen/RngSites.lean')\"")
+        _lock.close()
     return 0
 
 
